@@ -74,13 +74,15 @@ class World:
   def refresh(self):
     self.y = M.predict(self.model, self.x)
 
-  def check_readonly(self, what, before_w, before_y):
+  def check_readonly(self, what, before_w, before_y, weights_only=False):
     ctx = self.ctx
     ctx.checked()
     after_w = M.weights_snapshot(self.model)
     if not M.same_weights(before_w, after_w):
       ctx.violation("read-only|%s|weights-changed" % what,
                     "%s changed the live model's variables" % what)
+      return
+    if weights_only:
       return
     y = M.predict(self.model, self.x)
     if not np.array_equal(y, before_y, equal_nan=True):
@@ -130,8 +132,13 @@ def apply_op(ctx, w, op):
     ok, m2 = guard(ctx, "restart:%s" % route, M.restart_model, w.model, route,
                    w.scratch, None, bool(op.get("compile_load")), always=True)
     ctx.fault("restart_" + route)
-    w.check_readonly("restart:" + route, bw, by)
+    w.check_readonly("restart:" + route, bw, by,
+                     weights_only=bool(op.get("no_compare")))
     if not ok:
+      return
+    if op.get("no_compare"):
+      # output is random by design (bernoulli): only the restart is judged
+      ctx.probe("restart_without_prediction_compare")
       return
     if compare(ctx, w, m2, route) and op.get("replace"):
       w.model = m2
@@ -461,6 +468,25 @@ def directed():
         {k: (v.get("cls", v.get("str")) if isinstance(v, dict) else v)
          for k, v in l.items() if k in ("kq", "dq", "aq", "bidir")},
         sort_keys=True)), "seed": 1, "world": _single(l, kind), "ops": ops})
+  # every quantizer class of the custom-object table inside a layer config
+  qclasses = [
+      ("quantized_bits", {"bits": 4, "integer": 1}),
+      ("quantized_linear", {"bits": 4, "integer": 1}),
+      ("quantized_hswish", {"bits": 6, "integer": 2}),
+      ("bernoulli", {}), ("ternary", {}), ("stochastic_ternary", {
+          "alpha": "auto"}), ("binary", {}), ("stochastic_binary", {}),
+      ("quantized_relu", {"bits": 4, "integer": 1}),
+      ("quantized_ulaw", {"bits": 4, "integer": 1}),
+      ("quantized_tanh", {"bits": 4}), ("quantized_sigmoid", {"bits": 4}),
+      ("quantized_po2", {"bits": 4}), ("quantized_relu_po2", {"bits": 4}),
+  ]
+  for qc, kw in qclasses:
+    ops = [{"k": "RESTART", "route": r, "no_compare": qc == "bernoulli"}
+           for r in ("json", "clone", "h5_fileobj")]
+    out.append({"label": "directed:quantizer-class:%s" % qc, "seed": 1,
+                "world": _single({"t": "QActivation",
+                                  "aq": {"cls": qc, "kw": kw}}, "vec"),
+                "ops": ops})
   # disk faults at every 7th write of one model, all kinds
   dense = _single(layers[0][1], "vec")
   ops = []
